@@ -2,6 +2,10 @@
 """Regenerates MANIFEST.json from the table below (kept in one place so the manifest stays valid)."""
 import json
 CLAIMED = {
+ "C12": ("theorems C12_oracle_holds_on_model (every response to an accepted answerable request is a spec_packet travelling back to the requester: framing, byte count, transport header, PEC, Rq/D/rsvd clear, same command code, completion code; instance ID as recorded known finding 1201), C12_answerable_requests_are_answered and C12_process_is_dispatch (process_packet = dispatch on the decoded request); correspondence over requester x instance x command grids and after random histories", "§6 C12"),
+ "C13": ("theorems C13_oracle_holds_on_model (induction over all histories: both EIDs change exactly at an accepted Set/Force assignment or an accessor call, and are reported by Get/Set EID responses), C13_eids_after_process, C13_only_assignment_changes_eid; correspondence on random histories of up to 40 operations with both get_eid() values observed after every step", "§6 C13"),
+ "C14": ("theorems C14_oracle_holds_on_model and C14_walk (response to selector i < n = next selector i+1 or 0xFF and the i-th configured set in its own format, independent of the stored selector, in both overflow modes); correspondence: n = 1..16, every selector order for n <= 4, the requester's walk performed by the harness", "§6 C14"),
+ "C15": ("theorems C15_oracle_holds_on_model, C15_message_types, C15_uuid, C15_version (identity answers for every configuration, UUID history and interleaved traffic); correspondence on lists of every length 0..30 and UUID update sequences", "§6 C15"),
  "C18": ("theorems C18_getter_layout / C18_setter_layout (every one of the 29 declared fields reads / writes exactly the documented bit positions, for every raw buffer and every value, the 16/32-bit fields by induction over the chunked bit loop), read-after-write = value truncated to the width, every other field of the struct preserved, the two validators as boolean closed forms, and the oracle over all histories; correspondence: exhaustive raw values for 1-byte views, patterns + random for wider ones, all written values", "§6 C18"),
  "C09": ("theorems C09_decoder_exact (decode_packet = spec_decode, a flat decision procedure on the bytes, for every byte string outside the panic classes), C09_decoder_panics_iff (exact characterisation of the panic classes), C09_accept_iff_wellformed (accept <-> wf_packet, the property's own well-formedness predicate) and C09_oracle_holds_on_model (payload range, truthful errors); context independence: the model's decoder has no context argument, the correspondence decodes every case on a second context with another address/configuration/history", "§6 C09"),
  "C04": ("theorems C04_oracle_holds_on_model (every well-formed history: framing bytes, byte count, 4<=n<=259, probe on every prefix, oversize refused), C04_generate_fits / C04_generate_oversize_refused (closed form of the packet generators for all inputs); correspondence on all encoders, the 128x128 address grid, body sizes 10..300", "§6 C04"),
